@@ -45,6 +45,22 @@ def load_baseline():
     return None
 
 
+def load_baseline_callees():
+    p = os.path.join(VERIF, "baseline_obligations.json")
+    if os.path.exists(p):
+        return json.load(open(p)).get("callees", {})
+    return {}
+
+
+def has_contract_in_unit(callee, text):
+    """is `callee` (".method", "path::fn", "macro!") something this unit defines or specifies itself?"""
+    import re as _re
+    if callee.endswith("!") or callee.endswith("!;"):
+        return False  # a macro expands to library calls the unit does not see by name
+    name = callee.lstrip(".").split("::")[-1]
+    return bool(_re.search(r"\bfn\s+" + _re.escape(name) + r"\b", text) or _re.search(r"[:\[]" + _re.escape(name) + r"\]", text))
+
+
 def run_unit(unit, workdir, canary=False, extra=None, rlimit=None):
     path = os.path.join(VERIF, "units", unit + ".vrs")
     g, text = gen.generate(path)
@@ -239,6 +255,7 @@ def main():
 
     known = load_known()
     baseline = load_baseline()
+    baseline_callees = load_baseline_callees()
     known_ob = {(k["property"], k["obligation"]): k for k in known.get("findings", []) if "obligation" in k}
 
     # ---- 1. proofs
@@ -265,7 +282,10 @@ def main():
         for o in r["gen"].obligations:
             if prop not in o["props"]:
                 continue
-            rec = {"id": o["id"], "function": o["fn"], "unit": u, "backend": "verus-z3", "case": o.get("case")}
+            rec = {"id": o["id"], "function": o["fn"], "unit": u, "backend": "verus-z3", "case": o.get("case"), "callees": o.get("callees")}
+            if o.get("clauses"):
+                # the postconditions this obligation asks Verus to discharge (contract text of the unit template)
+                rec["ensures"] = [" ".join(c.split())[:400] for c in o["clauses"]]
             if not o.get("posed"):
                 rec["verdict"] = "undecided"
                 rec["reason"] = o.get("reason", "could not be posed")
@@ -407,6 +427,18 @@ def main():
                     break
             if cex:
                 break
+        if cex is None:
+            # No failing input. A proof that no longer goes through is a violation only if the function still calls what
+            # it called when the proof was found: a call to something new that this unit states no contract for (a std
+            # function, another form of a macro, a new private helper) means the proof cannot be expected to carry over.
+            base_c = baseline_callees.get(o["id"])
+            now_c = o.get("callees")
+            if base_c is not None and now_c is not None:
+                ext = [c for c in now_c if c not in base_c and not has_contract_in_unit(c, results[o["unit"]]["text"])]
+                if ext:
+                    o["verdict"] = "undecided"
+                    o["reason"] = "the proof did not carry over, the function now calls %s (not called when the baseline was taken, no contract in this unit), and the bounded run found no failing input" % ", ".join("`%s`" % c for c in ext[:4])
+                    continue
         rp = os.path.join(VERIF, "replays", "%s-%s.json" % (prop, o["id"].replace("/", "_").replace("#", "_")))
         os.makedirs(os.path.dirname(rp), exist_ok=True)
         json.dump({"property": prop, "obligation": o["id"], "function": o["function"], "verifier": "verus", "verifier_output": o.get("messages"), "input": cex.get("input") if cex else None, "bounded_check": cex.get("finder") if cex else None, "expected": cex.get("expected") if cex else None, "observed": cex.get("observed") if cex else None, "note": None if cex else "no-failing-input-found"}, open(rp, "w"), indent=1)
@@ -494,7 +526,7 @@ def main():
         "checker_cmd": "verus <generated unit>.rs --triggers-mode silent --output-json --time --error-format=json  (units: %s; regenerated from %s on this run)" % (",".join(units), gen.REPO),
         "trusted_base": COMMON_TRUST + [t for u in units for t in UNIT_TRUST.get(u, [])] + trusted_gen,
         "functions_under_contract": my_functions,
-        "obligation_list": [{k: o.get(k) for k in ("id", "function", "backend", "verdict", "ms", "rlimit", "unstable", "reason") if o.get(k) is not None} for o in obligations],
+        "obligation_list": [{k: o.get(k) for k in ("id", "function", "case", "backend", "verdict", "ms", "rlimit", "unstable", "reason", "ensures") if o.get(k) is not None} for o in obligations],
         "solver_time_s": round(solver_s, 3),
         "verus_runs": [{"unit": u, "verified_items": (results[u]["vr"] or {}).get("verified"), "errors": (results[u]["vr"] or {}).get("errors"), "wall_s": round(results[u]["res"]["wall_s"], 2), "generated_lines": results[u]["text"].count("\n"), "sources": sorted(results[u]["gen"].sources)} for u in units],
         "rewrites_applied": rewrites,
@@ -531,7 +563,11 @@ def main():
         p = os.path.join(VERIF, "baseline_obligations.json")
         cur = json.load(open(p)) if os.path.exists(p) else {"discharged": []}
         s = set(cur["discharged"]) | set(o["id"] for o in obligations if o["verdict"] == "discharged")
-        json.dump({"discharged": sorted(s)}, open(p, "w"), indent=0)
+        cal = cur.get("callees", {})
+        for o in obligations:
+            if o["verdict"] == "discharged" and o.get("callees") is not None:
+                cal[o["id"]] = o["callees"]
+        json.dump({"discharged": sorted(s), "callees": {k: cal[k] for k in sorted(cal)}}, open(p, "w"), indent=0)
 
     for ln in lines:
         print(ln)
